@@ -12,3 +12,21 @@ func init() {
 		NotCovered: "round-trip equality of values (number formatting, free-form payloads, escaping of member names - see C06), deep nesting and combinations; x- members on externalDocs/xml objects (no holder in the types; informational note only)",
 	})
 }
+
+func init() {
+	registerProperty(&Property{
+		ID:    "C19",
+		Rules: []string{"required-emitted", "keyword-table"},
+		Explanation: "Decides the per-member half of validity preservation: for every kind and every member its meta-schema definition(s) require, the encoder cannot drop the member from a value decoded from a valid document (decided from the Go type, omitempty, the proxy special-casing in MarshalJSON partially evaluated under the definition's own enum constraints, and the definition's constraint on the member); and no member is renamed into something the closed definitions reject (keyword-table).",
+		NotCovered:  "validity of everything else (formats, oneOf selection, uniqueness), validity of expanded schemas' contents; the expansion half (holder either pure $ref or dereferenced with Ref cleared) is decided by ref-clear/containers under C03",
+	})
+}
+
+func init() {
+	registerProperty(&Property{
+		ID:    "C20",
+		Rules: []string{"copy-map", "clear-exact"},
+		Explanation: "The validation accessors are straight-line field copies and guarded clears, so their input/output relation is their shape. copy-map abstracts every SetValidations/Validations/WithValidations body (following delegation) to a map destination-field <- source-field over the field universe taken from the types and requires the identity on the carrier's validation set and no other write. clear-exact checks every Clear*Validations: each (guard, record, clear) triple names one field, reports its JSON keyword, records before clearing, stores the zero value; the cleared set equals the draft-4 family intersected with the carrier; nothing else is written; callbacks are applied by a deferred apply over the same slice; apply calls every callback once per record; Has*Validations reads only fields the matching clear clears.",
+		NotCovered:  "aliasing (the set returned by Validations shares pointers with the receiver); HasXValidations being true before a clear for every member of the family (the property only requires it false afterwards)",
+	})
+}
